@@ -42,6 +42,8 @@ def defs_in(text):
                     kind = 'static' if 'staticmethod' in decos else 'class' if 'classmethod' in decos else 'prop' if 'property' in decos else 'plain'
                     ms.append((kind, m.name))
             out['classes'][node.name] = ms
+    # definitions nested at any depth (in functions, classes, compound statements); the fallback `def profile` of the prelude never runs under kernprof
+    out['nested'] = sorted({n.name for n in ast.walk(tree) if isinstance(n, (ast.FunctionDef, ast.AsyncFunctionDef)) and n.name != 'profile'})
     return out
 
 
@@ -230,20 +232,25 @@ def run(ctx):
     nreal = 36 if ctx.quick else 500
     sample = ctx.rng.fork('real').sample(cases, min(nreal, len(cases)))
     # crafted cases for the recorded findings run first, so that a change in them is always seen
-    def crafted(imports_calls, sel):
+    def crafted(imports_calls, sel, defs=()):
         r = ctx.rng.fork('crafted')
         prog = autoprog.gen_program(r)
         files = dict(prog['files'])
         files['mixed.py'] = MIXED
         files['klass.py'] = KLASS
-        text = autoprog.PRELUDE + ''.join(st + '\n' for st, _e in imports_calls) + '\nif __name__ == "__main__":\n' + ''.join('    print(repr(%s))\n' % e for _s, e in imports_calls)
+        text = (autoprog.PRELUDE + ''.join(st + '\n' for st, _e in imports_calls) + ''.join('\n\n' + src for src, _e in defs) + '\nif __name__ == "__main__":\n'
+                + ''.join('    print(repr(%s))\n' % e for _s, e in list(imports_calls) + list(defs)))
         files['prog.py'] = text
         prog['top_imports'] = [st for st, _e in imports_calls]
         return {'files': files, 'script': 'prog.py', 'prof_mod': sel, 'prog': prog}
     sample = [crafted([('import mixed', 'mixed.mx(1)')], ['mixed']),
               crafted([('from pkgk.sub import dpkg', 'dpkg.dpf(1)'), ('from pkgk import sib', 'sib.sf(1)')], ['pkgk']),
               crafted([('from klass import HK2', 'HK2().plain(1)'), ('import klass', 'klass.kfree(2)')], ['klass']),
-              crafted([('from helper import hf as h2, hg', 'h2(1) + hg(2)'), ('from helper import HK', 'HK().hm(1)')], ['PATH:helper.py'])] + sample
+              crafted([('from helper import hf as h2, hg', 'h2(1) + hg(2)'), ('from helper import HK', 'HK().hm(1)')], ['PATH:helper.py']),
+              # the script itself, with definitions nested inside an explicitly decorated function and inside an undecorated one
+              crafted([], ['PATH:prog.py'], defs=[('@profile\ndef deco_outer(n):\n    def deco_inner(j):\n        return j + 1\n\n    class Local:\n        def meth(self, a):\n            return a * 2\n'
+                        '    return deco_inner(n) + Local().meth(n)\n\n\ndef plain_outer(n):\n    def plain_inner(j):\n        return j - 1\n    return plain_inner(n)\n',
+                        'deco_outer(1) + plain_outer(2)')])] + sample
     with cf.ThreadPoolExecutor(max_workers=12) as ex:
         rr = list(ex.map(lambda c: real_run(build, c['files'], c['script'], c['prof_mod']), sample))
     nontrivial = set()
@@ -289,7 +296,8 @@ def run(ctx):
                                                                                         'top_imports': c['prog']['top_imports']})
         if script_selected:
             d = defs_in(c['files']['prog.py'])
-            want = set(d['funcs']) | {m for ms in d['classes'].values() for _k, m in ms}
+            # every definition at any depth (the generated programs execute all their definitions)
+            want = set(d['funcs']) | {m for ms in d['classes'].values() for _k, m in ms} | set(d['nested'])
             have = {fn for (f, fn) in got if f == 'prog.py'}
             missing = want - have
             if missing:
